@@ -5,7 +5,7 @@
    case : fn ("bott" | "wass" | "heat" | "sw"), D = diagrams [[b, d]] (finite points), V = matrix [[finite, value]],
           W = matrix of observed 1-Wasserstein values (or <<>>) for the comparison laws, BT = matrix of observed bottleneck values
           (or <<>>), sigma (Fix, tick^2; heat only), zerotol (Fix; what "zero" means for this function and size),
-          anchor: 1 => also decide absolute values by the exact anchor family (heat: sigma = 1/(8 ln 2); sw: Mdirs in {1, 2}), Mdirs.
+          anchor: 1 => also decide absolute values by the exact anchor family (heat: sigma = 1/(8 ln 2); sw: Mdirs in Tables!SWMs), Mdirs.
    The first failing law is reported with the indices involved.                                                          *)
 EXTENDS Tables, FiniteSets, TLC, FiniteSetsExt, SequencesExt, Json, IOUtils, TLCExt
 Cases == JsonDeserialize(IOEnv.TRACE_FILE)
@@ -49,16 +49,24 @@ HeatAnchorOK(c, i, j) ==    \* heat^2 * pi / ln2 = K2(F,F) + K2(G,G) - 2 K2(F,G)
       rhs == FSub(FAdd(K2(F, F), K2(G, G)), FMulInt(K2(F, G), 2))
       lhs == FMul(FMul(Val(c, i, j), Val(c, i, j)), Pi)
   IN FCloseRel(lhs, FMul(rhs, Ln2), E9, E6)
-\* sliced Wasserstein with M in {1, 2} directions: (0,1) and (-1,0); values in HALF ticks, exact
-DiagProj2(d) == [j \in 1..Len(d) |-> d[j][1] + d[j][2]]             \* both coordinates of the projection, times 2
-SortInts(s) == SortSeq(s, <)
-L1Sorted(u, v) == LET a == SortInts(u) b == SortInts(v) S[j \in 0..Len(a)] == IF j = 0 THEN 0 ELSE S[j - 1] + AbsI(a[j] - b[j]) IN S[Len(a)]
-SWDef2M(c, i, j) ==    \* 2 * Mdirs * SW in ticks
-  LET F == Dg(c, i) G == Dg(c, j)
-      dirY == L1Sorted([q \in 1..Len(F) |-> 2 * F[q][2]] \o DiagProj2(G), [q \in 1..Len(G) |-> 2 * G[q][2]] \o DiagProj2(F))
-      dirX == L1Sorted([q \in 1..Len(F) |-> -2 * F[q][1]] \o [q \in 1..Len(G) |-> -DiagProj2(G)[q]], [q \in 1..Len(G) |-> -2 * G[q][1]] \o [q \in 1..Len(F) |-> -DiagProj2(F)[q]])
-  IN IF c.Mdirs = 1 THEN dirY ELSE dirY + dirX
-SWAnchorOK(c, i, j) == FCloseRel(FMulInt(Val(c, i, j), 2 * c.Mdirs), FInt(SWDef2M(c, i, j)), FMulInt(c.zerotol, 2 * c.Mdirs), E6)    \* float32 direction vectors
+\* sliced Wasserstein for every tabulated number of directions M (Tables!SWDirs: cos / sin of (1/2 + i/M) pi to 1e-16):
+\* average over the directions of the 1-D transport cost (sorted matching, SlicedWasserstein.tla) between the projections of each
+\* diagram augmented with the diagonal projections ((b+d)/2, (b+d)/2) of the other
+ProjPt(p, dir) == FAdd(FMulInt(dir[1], p[1]), FMulInt(dir[2], p[2]))
+ProjDiag(p, dir) == FDivInt(FMulInt(FAdd(dir[1], dir[2]), p[1] + p[2]), 2)
+SortFix(s) == SortSeq(s, LAMBDA x, y : FLt(x, y))
+L1SortedF(u, v) == LET a == SortFix(u) b == SortFix(v)
+                       RECURSIVE A(_)
+                       A(q) == IF q > Len(a) THEN FZero ELSE FAdd(FAbs(FSub(a[q], b[q])), A(q + 1))
+                   IN A(1)
+SWDef(c, i, j) ==
+  LET F == Dg(c, i) G == Dg(c, j) dirs == SWDirs(c.Mdirs)
+      cost(dir) == L1SortedF([q \in 1..Len(F) |-> ProjPt(F[q], dir)] \o [q \in 1..Len(G) |-> ProjDiag(G[q], dir)],
+                             [q \in 1..Len(G) |-> ProjPt(G[q], dir)] \o [q \in 1..Len(F) |-> ProjDiag(F[q], dir)])
+      RECURSIVE A(_)
+      A(q) == IF q > Len(dirs) THEN FZero ELSE FAdd(cost(dirs[q]), A(q + 1))
+  IN FDivInt(A(1), c.Mdirs)
+SWAnchorOK(c, i, j) == FCloseRel(Val(c, i, j), SWDef(c, i, j), c.zerotol, E6)    \* float32 direction vectors in the code
 
 (* ---- the law table: returns <<clause, i, j, l>> of the first violated law or <<"ok",0,0,0>> ---- *)
 Idx(c) == 1..N(c)
